@@ -11,9 +11,9 @@ import (
 	"strings"
 )
 
-// canonJSON prints v the way the Lean printer does: compact, object keys sorted (encoding/json
+// g4CanonJSON prints v the way the Lean printer does: compact, object keys sorted (encoding/json
 // sorts map keys), blanks inside strings escaped so that the text is one protocol token.
-func canonJSON(v any) string {
+func g4CanonJSON(v any) string {
 	b, err := json.Marshal(v)
 	if err != nil {
 		return "marshal-error"
@@ -26,16 +26,16 @@ func canonJSON(v any) string {
 	return strings.ReplaceAll(string(b), " ", "\\u0020")
 }
 
-func deepCopyJSON(v map[string]any) map[string]any {
+func g4DeepCopyJSON(v map[string]any) map[string]any {
 	b, _ := json.Marshal(v)
 	var out map[string]any
 	_ = json.Unmarshal(b, &out)
-	return intify(out).(map[string]any)
+	return g4Intify(out).(map[string]any)
 }
 
-// intify turns float64 whole numbers into int64 (what unstructured objects hold; DeepCopyJSON of
+// g4Intify turns float64 whole numbers into int64 (what unstructured objects hold; DeepCopyJSON of
 // apimachinery panics on int).
-func intify(v any) any {
+func g4Intify(v any) any {
 	switch x := v.(type) {
 	case float64:
 		if x == float64(int64(x)) {
@@ -44,12 +44,12 @@ func intify(v any) any {
 		return x
 	case map[string]any:
 		for k, e := range x {
-			x[k] = intify(e)
+			x[k] = g4Intify(e)
 		}
 		return x
 	case []any:
 		for i, e := range x {
-			x[i] = intify(e)
+			x[i] = g4Intify(e)
 		}
 		return x
 	}
@@ -157,19 +157,19 @@ func (f *jqF) paths(acc map[string]bool) {
 }
 
 // the mutable leaves of generated objects
-var objLeaves = [][]string{
+var g4ObjLeaves = [][]string{
 	{"spec", "replicas"}, {"spec", "a"}, {"spec", "b", "c"}, {"status", "x"}, {"data", "k"}, {"metadata", "labels", "l"},
 }
 
 // filter paths: the leaves, their parents, missing keys (null result), paths through scalars
 // (null.k = null, but number.k is a jq error)
-var filterPaths = [][]string{
+var g4FilterPaths = [][]string{
 	{"spec", "replicas"}, {"spec", "a"}, {"spec", "b", "c"}, {"spec", "b"}, {"spec"}, {"status", "x"}, {"status"},
 	{"data", "k"}, {"data"}, {"metadata", "labels"}, {"metadata", "labels", "l"}, {"metadata", "name"},
 	{"nope"}, {"spec", "nope", "deeper"}, {"spec", "replicas", "x"}, {"spec", "a", "y"}, {},
 }
 
-func genLeaf(rng *Rng) any {
+func g4GenLeaf(rng *Rng) any {
 	switch rng.Intn(10) {
 	case 0:
 		return nil
@@ -188,7 +188,7 @@ func genLeaf(rng *Rng) any {
 	}
 }
 
-func genLit(rng *Rng) any {
+func g4GenLit(rng *Rng) any {
 	switch rng.Intn(6) {
 	case 0:
 		return nil
@@ -203,15 +203,15 @@ func genLit(rng *Rng) any {
 	}
 }
 
-// safeFilterPaths never index into a leaf value: a filter built from them cannot fail.
-var safeFilterPaths = [][]string{
+// g4SafeFilterPaths never index into a leaf value: a filter built from them cannot fail.
+var g4SafeFilterPaths = [][]string{
 	{"spec", "replicas"}, {"spec", "a"}, {"spec", "b", "c"}, {"spec", "b"}, {"spec"}, {"status", "x"}, {"status"},
 	{"data", "k"}, {"data"}, {"metadata", "labels"}, {"metadata", "name"}, {"nope"}, {"spec", "nope", "deeper"}, {},
 }
 
-func genFilter(rng *Rng, depth int) *jqF { return genFilterWith(rng, depth, filterPaths) }
+func g4GenFilter(rng *Rng, depth int) *jqF { return g4GenFilterWith(rng, depth, g4FilterPaths) }
 
-func genFilterWith(rng *Rng, depth int, paths [][]string) *jqF {
+func g4GenFilterWith(rng *Rng, depth int, paths [][]string) *jqF {
 	k := rng.Intn(100)
 	if depth <= 0 && k >= 60 {
 		k = rng.Intn(60)
@@ -220,26 +220,26 @@ func genFilterWith(rng *Rng, depth int, paths [][]string) *jqF {
 	case k < 50:
 		return &jqF{Kind: "path", Path: PickOne(rng, paths)}
 	case k < 60:
-		return &jqF{Kind: "lit", Lit: genLit(rng)}
+		return &jqF{Kind: "lit", Lit: g4GenLit(rng)}
 	case k < 75:
 		f := &jqF{Kind: "obj"}
 		for n := rng.Intn(4); n > 0; n-- {
-			f.Fields = append(f.Fields, jqField{PickOne(rng, []string{"x", "y", "z", "a"}), genFilterWith(rng, depth-1, paths)})
+			f.Fields = append(f.Fields, jqField{PickOne(rng, []string{"x", "y", "z", "a"}), g4GenFilterWith(rng, depth-1, paths)})
 		}
 		return f
 	case k < 88:
 		f := &jqF{Kind: "arr"}
 		for n := rng.Intn(4); n > 0; n-- {
-			f.Items = append(f.Items, genFilterWith(rng, depth-1, paths))
+			f.Items = append(f.Items, g4GenFilterWith(rng, depth-1, paths))
 		}
 		return f
 	default:
-		return &jqF{Kind: "alt", A: genFilterWith(rng, depth-1, paths), B: genFilterWith(rng, depth-1, paths)}
+		return &jqF{Kind: "alt", A: g4GenFilterWith(rng, depth-1, paths), B: g4GenFilterWith(rng, depth-1, paths)}
 	}
 }
 
-// resultClass classifies a rendered filter result for the input distribution.
-func resultClass(s string) string {
+// g4ResultClass classifies a rendered filter result for the input distribution.
+func g4ResultClass(s string) string {
 	switch {
 	case s == "err":
 		return "error"
@@ -254,10 +254,10 @@ func resultClass(s string) string {
 	}
 }
 
-func setPath(obj map[string]any, path []string, v any) {
+func g4SetPath(obj map[string]any, p []string, v any) {
 	m := obj
-	for i, k := range path {
-		if i == len(path)-1 {
+	for i, k := range p {
+		if i == len(p)-1 {
 			m[k] = v
 			return
 		}
@@ -270,10 +270,10 @@ func setPath(obj map[string]any, path []string, v any) {
 	}
 }
 
-func delPath(obj map[string]any, path []string) {
+func g4DelPath(obj map[string]any, p []string) {
 	m := obj
-	for i, k := range path {
-		if i == len(path)-1 {
+	for i, k := range p {
+		if i == len(p)-1 {
 			delete(m, k)
 			return
 		}
@@ -285,25 +285,25 @@ func delPath(obj map[string]any, path []string) {
 	}
 }
 
-// genObject builds a ConfigMap-shaped object with a random subset of the leaves set.
-func genObject(rng *Rng, ns, name string) map[string]any {
+// g4GenObject builds a ConfigMap-shaped object with a random subset of the leaves set.
+func g4GenObject(rng *Rng, ns, name string) map[string]any {
 	o := map[string]any{
 		"apiVersion": "v1", "kind": "ConfigMap",
 		"metadata": map[string]any{"name": name, "namespace": ns},
 	}
-	for _, l := range objLeaves {
+	for _, l := range g4ObjLeaves {
 		if rng.Chance(65) {
 			if l[0] == "metadata" {
-				setPath(o, l, PickOne(rng, []string{"u", "v", "w"})) // label values stay strings
+				g4SetPath(o, l, PickOne(rng, []string{"u", "v", "w"})) // label values stay strings
 			} else {
-				setPath(o, l, genLeaf(rng))
+				g4SetPath(o, l, g4GenLeaf(rng))
 			}
 		}
 	}
 	return o
 }
 
-func sortedKeys[V any](m map[string]V) []string {
+func g4SortedKeys[V any](m map[string]V) []string {
 	ks := make([]string, 0, len(m))
 	for k := range m {
 		ks = append(ks, k)
@@ -312,10 +312,10 @@ func sortedKeys[V any](m map[string]V) []string {
 	return ks
 }
 
-// ckInterner numbers checksums by first appearance (only the equality pattern is compared).
-type ckInterner struct{ m map[string]int }
+// g4CkInterner numbers checksums by first appearance (only the equality pattern is compared).
+type g4CkInterner struct{ m map[string]int }
 
-func (c *ckInterner) id(s string) string {
+func (c *g4CkInterner) id(s string) string {
 	if c.m == nil {
 		c.m = map[string]int{}
 	}
